@@ -1,43 +1,130 @@
-"""Replay stage: search a concrete failing input for a failed obligation against the REAL crate.
-Runs only after the verifier has failed (or run out of resources on) an obligation; never decides a property."""
+"""Replay stage: search a concrete failing input for a failed / undecided obligation against the REAL crate
+(replay_runner: path dependency on /repo, rebuilt from the working tree). Runs only after the verifier has failed (or could
+not decide) an obligation, or as a labelled *bounded* stand-in in the thorough tier; it never proves anything."""
 import json
 import os
+import re
 import subprocess
 
 ROOT = os.path.dirname(os.path.dirname(os.path.abspath(__file__)))
 RUNNER = os.path.join(ROOT, "replay_runner")
+_BUILT = {}
+
+
+def build(features):
+    """features: 'ark' | 'min' | 'r1cs' ; returns path of the runner binary or None"""
+    if features in _BUILT:
+        return _BUILT[features]
+    tgt = os.path.join(ROOT, "build", "replay_target_" + features)
+    cmd = ["cargo", "build", "--offline", "--release", "--quiet", "--manifest-path", os.path.join(RUNNER, "Cargo.toml")]
+    if features == "min":
+        cmd += ["--no-default-features"]
+    elif features == "r1cs":
+        cmd += ["--features", "r1cs"]
+    env = dict(os.environ, CARGO_TARGET_DIR=tgt, CARGO_NET_OFFLINE="true",
+               RUSTFLAGS="-Awarnings" + (" --cfg decaf377_verif" if features == "r1cs" else ""))
+    try:
+        p = subprocess.run(cmd, capture_output=True, text=True, timeout=1500, env=env)
+    except subprocess.TimeoutExpired:
+        _BUILT[features] = None
+        return None
+    exe = os.path.join(tgt, "release", "replay_runner")
+    _BUILT[features] = exe if p.returncode == 0 and os.path.exists(exe) else None
+    if _BUILT[features] is None:
+        _BUILT[features + "_err"] = p.stderr[-2000:]
+    return _BUILT[features]
+
+
+def run_probe(features, probe, seed, iters=None, timeout=900):
+    exe = build(features)
+    if exe is None:
+        return dict(status="norun", detail="runner does not build for this tree: " + _BUILT.get(features + "_err", "")[:600])
+    env = dict(os.environ)
+    if iters:
+        env["REPLAY_ITERS"] = str(iters)
+    try:
+        p = subprocess.run([exe, probe, str(seed)], capture_output=True, text=True, timeout=timeout, env=env)
+    except subprocess.TimeoutExpired:
+        return dict(status="norun", detail="timeout")
+    for line in p.stdout.splitlines():
+        if line.startswith("CEX "):
+            try:
+                d = json.loads(line[4:])
+            except Exception:
+                d = dict(check="unparsed", input=line[4:300], got="", want="")
+            d["status"] = "cex"
+            d["cmd"] = f"cd /verif/replay_runner && cargo run --offline --release{' --no-default-features' if features == 'min' else ''}{' --features r1cs' if features == 'r1cs' else ''} -- {probe} {seed}"
+            return d
+        if line.startswith("OK "):
+            return dict(status="ok", checks=int(line[3:].strip() or 0))
+    return dict(status="norun", detail=(p.stdout + p.stderr)[-600:])
+
+
+def probes_for(file, header, fn):
+    """which (features, probe) pairs exercise the function `file :: header :: fn`"""
+    f = file or ""
+    h = header or ""
+    m = re.match(r'src/fields/(fq|fr|fp)', f)
+    if m:
+        fld = m.group(1)
+        if "/u32/" in f:
+            return [("min", f"field.{fld}")]
+        if "/u64/" in f or f.endswith("arkworks.rs"):
+            return [("ark", f"field.{fld}")]
+        return [("ark", f"field.{fld}"), ("min", f"field.{fld}")]
+    if f.startswith("src/sign.rs"):
+        return [("ark", "curve.decode"), ("ark", "curve.encode"), ("min", "min.all")]
+    if f.startswith("src/min_curve"):
+        return [("min", "min.all")]
+    if f.startswith("src/ark_curve/r1cs"):
+        return [("r1cs", "r1cs.d6"), ("r1cs", "r1cs.hints")]
+    if f.endswith("ark_curve/encoding.rs") or f.endswith("ark_curve/serialize.rs"):
+        if re.search(r'decompress|try_from|deserialize', fn) or "TryFrom" in h or "Deserialize" in h:
+            return [("ark", "curve.decode")]
+        if fn == "negate":
+            return [("ark", "curve.ops")]
+        return [("ark", "curve.encode")]
+    if "ark_curve/ops/" in f:
+        return [("ark", "curve.mul")] if "Mul" in h else [("ark", "curve.ops")]
+    if f.endswith("ark_curve/elligator.rs"):
+        return [("ark", "curve.elligator")]
+    if f.endswith("ark_curve/invsqrt.rs"):
+        return [("ark", "curve.sqrt")]
+    if f.endswith("ark_curve/bls12_377.rs"):
+        return [("ark", "bls")]
+    if "ark_curve/element" in f or f.endswith("ark_curve/rand.rs"):
+        if re.search(r'^(eq|hash|is_zero|is_identity)$', fn):
+            return [("ark", "curve.eqhash")]
+        if re.search(r'mul_bigint|multiscalar', fn):
+            return [("ark", "curve.mul")]
+        if fn == "sum" or "Sum" in h:
+            return [("ark", "curve.ops")]
+        return [("ark", "curve.ctor"), ("ark", "curve.ops"), ("ark", "curve.eqhash")]
+    return []
 
 
 def search(pid, unit, mm, fm, seed):
-    """returns dict(input=..., got=..., want=..., cmd=...) or dict() when nothing was found / no probe exists"""
+    """first failing input found for the function of a failed obligation, or {}"""
     if not os.path.isdir(RUNNER):
         return {}
-    probe = probe_for(unit, mm, fm)
-    if probe is None:
-        return {}
-    feats, name = probe
-    cmd = ["cargo", "run", "--offline", "--quiet", "--release", "--manifest-path", os.path.join(RUNNER, "Cargo.toml")] + feats + \
-          ["--", name, str(seed)]
-    try:
-        p = subprocess.run(cmd, capture_output=True, text=True, timeout=900,
-                           env=dict(os.environ, CARGO_TARGET_DIR=os.path.join(ROOT, "build", "replay_target"), CARGO_NET_OFFLINE="true"))
-    except subprocess.TimeoutExpired:
-        return {}
-    for line in p.stdout.splitlines():
-        if line.startswith("CEX "):
-            d = json.loads(line[4:])
-            d["cmd"] = " ".join(cmd)
-            return d
+    for (feat, probe) in probes_for(mm.get("file"), mm.get("header"), fm.get("display", fm.get("fn", ""))):
+        r = run_probe(feat, probe, seed or 1, iters=96)
+        if r.get("status") == "cex":
+            return dict(input=r.get("input"), check=r.get("check"), got=r.get("got"), want=r.get("want"), cmd=r.get("cmd"), probe=probe, build=feat)
     return {}
 
 
-def probe_for(unit, mm, fm):
+def known_finding_reproduces(spec):
+    """spec = '<features>:<probe>' whose stdout must contain 'reproduces' (and not 'does not reproduce')"""
+    feat, probe = spec.split(":", 1)
+    exe = build(feat)
+    if exe is None:
+        return None
     try:
-        table = json.load(open(os.path.join(RUNNER, "probes.json")))
-    except Exception:
+        p = subprocess.run([exe, probe, "1"], capture_output=True, text=True, timeout=600)
+    except subprocess.TimeoutExpired:
         return None
-    key = f"{mm.get('file')}::{mm.get('header')}::{fm.get('display', fm['fn'])}"
-    e = table.get(key) or table.get(f"{mm.get('file')}::*::{fm.get('display', fm['fn'])}")
-    if not e:
-        return None
-    return e.get("cargo_args", []), e["probe"]
+    out = p.stdout
+    if "does not reproduce" in out:
+        return False
+    return "reproduces" in out
